@@ -162,6 +162,10 @@ func checkC14(res *Result) {
 				}
 				if normURI(g.VocabURI) != normURI(e.vocabURI) {
 					why = append(why, fmt.Sprintf("branch vocabulary %q but the type lives in %q", e.vocabURI, g.VocabURI))
+				} else if which != "JSONResolver.Resolve" && g.VocabURI != e.vocabURI {
+					// a comparison of strings at run time: the two literals must be identical, not merely
+					// spellings of one vocabulary
+					why = append(why, fmt.Sprintf("the branch compares VocabularyURI() with %q but %s.VocabularyURI() returns %q: the branch is never taken for a value of its own type", e.vocabURI, g.Name, g.VocabURI))
 				}
 			}
 			if e.valType != e.cbType {
